@@ -181,6 +181,15 @@ var ops = []op{
 	{"eval-avg", eval("avg($..price) + sum($.n) + length($.s)")},
 	{"eval-multi", eval("size($..*) + length($.*)")},
 	{"eval-first", eval("first($..*) == last($..*) || root(@) == @")},
+	// sub-paths whose several matches include the parentless root itself (trailing `..`), next to readers of the root's position
+	{"eval-root-among-matches", eval("length($..) + length(@..) + size($..)")},
+	{"root-position", func(root *ajson.Node) string {
+		res, err := root.JSONPath("$")
+		if err != nil || len(res) != 1 {
+			return "err"
+		}
+		return root.Path() + "|" + strconv.FormatBool(root.Parent() == nil) + "|" + strconv.FormatBool(res[0] == root) + "|" + strconv.Itoa(root.Index())
+	}},
 	// the random functions: their values differ from call to call by design, so only "a number in range, no error" is compared —
 	// the point is that whatever generator state they use is safe to step from several goroutines
 	{"eval-rand", func(r *ajson.Node) string {
